@@ -27,6 +27,71 @@ pub struct Case {
     pub joined: Option<DataTable>,
     #[serde(default)]
     pub joined_lines: Vec<String>,
+    /// a dedicated mode (the other fields are not used then): an aggregate DISTINCT statement whose HAVING clause
+    /// can fail (division by a SUM that is still 0), driven line by line by a caller that goes on after an error
+    #[serde(default)]
+    pub failing_having: Option<FailingHaving>,
+}
+
+#[derive(Clone, Debug, Serialize, Deserialize)]
+pub struct FailingHaving {
+    /// which select list (index into FH_SELECT)
+    pub select: u8,
+    pub threshold: i64,
+    /// (group key, a, b): line `k=<key> a=<a> b=<b>`
+    pub rows: Vec<(u8, i64, i64)>,
+}
+
+const FH_SELECT: [&str; 5] = ["k, SUM(a)", "SUM(a)", "COUNT(*)", "SUM(a), SUM(b)", "k, SUM(a), COUNT(*)"];
+const FH_DEFS: &str = "CREATE TABLE t(line = 'k=([a-z]+) a=([0-9]+) b=([0-9]+)', line[1] => k TEXT, line[2] => a INT, line[3] => b INT);";
+
+/// Every refresh of a line-by-line run that goes on after a failed refresh: the DISTINCT table = the table without
+/// DISTINCT minus its duplicate rows, and DISTINCT changes nothing about which refreshes fail.
+fn check_failing_having(fh: &FailingHaving, obs: &mut Obs) -> Result<(), Failure> {
+    let select = FH_SELECT[fh.select as usize % FH_SELECT.len()];
+    let text = |distinct: &str| format!("SELECT {}{} FROM t GROUP BY k HAVING SUM(a) / SUM(b) >= {}", distinct, select, fh.threshold);
+    let lines: Vec<String> = fh.rows.iter().map(|(k, a, b)| format!("k={} a={} b={}", ["a", "b", "c", "d"][*k as usize % 4], a, b)).collect();
+    let context = format!("query: {}\n  table: {}\n  lines: {:?}", text("DISTINCT "), FH_DEFS, lines);
+    let harness = |e: String| Failure::new("harness-problem", e);
+    let tables = build_tables(FH_DEFS).map_err(harness)?;
+    let st_d = parse_statement(&text("DISTINCT ")).map_err(harness)?;
+    let st_p = parse_statement(&text("")).map_err(harness)?;
+    let panic_fail = |p: String| Failure::new(format!("panic: {}", crate::run::panic_class(&p)), format!("panicked: {}\n  {}", p, context));
+    let mut eng_d = crate::run::catch(|| ExecutionEngine::new(&tables, &st_d)).map_err(panic_fail)?;
+    let mut eng_p = crate::run::catch(|| ExecutionEngine::new(&tables, &st_p)).map_err(panic_fail)?;
+    obs.label("failing-having");
+    let mut failed_before = false;
+    let to_rows = |lo: &LineOut| -> Vec<Vec<V>> { lo.result.as_ref().map(|rr| rr.data.iter().map(|r| r.columns.iter().map(V::from_real).collect()).collect()).unwrap_or_default() };
+    for (i, line) in lines.iter().enumerate() {
+        let d = engine_line(&mut eng_d, line, &ExecutionConfig::default()).map_err(panic_fail)?;
+        let p = engine_line(&mut eng_p, line, &ExecutionConfig::default()).map_err(panic_fail)?;
+        obs.inner += 1;
+        match (&d, &p) {
+            (Ok(d), Ok(p)) => {
+                let (a, b) = (to_rows(d), to_rows(p));
+                let want = dedup_rows(&b);
+                let same = a.len() == want.len() && a.iter().zip(want.iter()).all(|(x, y)| x.len() == y.len() && x.iter().zip(y.iter()).all(|(p, q)| p.ref_eq(q) || (p.is_null() && q.is_null())));
+                if failed_before && !b.is_empty() {
+                    obs.label("refresh-after-failed-refresh");
+                    obs.nontrivial = true;
+                }
+                if !same {
+                    return Err(Failure::new(
+                        if failed_before { "refresh-after-failed-refresh: aggregate+having" } else { "refresh: aggregate+having (failing-having mode)" },
+                        format!("after line {} the DISTINCT table is {:?}\n  without DISTINCT: {:?}\n  an earlier refresh had failed: {}\n  {}", i + 1, a, b, failed_before, context),
+                    ));
+                }
+            }
+            (Err(_), Err(_)) => failed_before = true,
+            (d, p) => {
+                return Err(Failure::new(
+                    "failing-having: DISTINCT changes which refresh fails",
+                    format!("after line {}: with DISTINCT {:?}, without {:?}\n  {}", i + 1, d.as_ref().map(|_| "a table").map_err(|e| e.clone()), p.as_ref().map(|_| "a table").map_err(|e| e.clone()), context),
+                ));
+            }
+        }
+    }
+    Ok(())
 }
 
 pub struct C08;
@@ -229,7 +294,7 @@ impl Property for C08 {
     fn rule(&self) -> String {
         "a DISTINCT statement (1-4 columns / expressions, `*`, aggregate DISTINCT with and without HAVING) over <= 20 rows drawn from a pool of 2-4 tuples with controlled near-duplicates: one column \
          changed, a value replaced by NULL, -0.0 vs 0.0 in REAL columns, recurrence after gaps. Oracle (metamorphic): records(DISTINCT Q) = first-occurrence dedup, under reference tuple equality \
-         (NULL = NULL, numbers by value), of records(Q), order and content otherwise unchanged; for the batch run and for every per-line refresh. Non-trivial: Q's output has a non-adjacent duplicate and \
+         (NULL = NULL, numbers by value), of records(Q), order and content otherwise unchanged; for the batch run and for every per-line refresh. One case in twelve is the failing-HAVING mode: SELECT DISTINCT ... GROUP BY k HAVING SUM(a) / SUM(b) >= c driven line by line, with and without DISTINCT in lockstep, going on after refreshes that fail (division by a SUM that is still 0): every refresh with a table obeys the same relation and DISTINCT does not change which refreshes fail. Non-trivial: Q's output has a non-adjacent duplicate and \
          two rows that differ in exactly one column; distinct by case."
             .to_string()
     }
@@ -283,7 +348,7 @@ impl Property for C08 {
             }
             let mut query = Select::simple(vec![(crate::sql::E::Star, None)], "t");
             query.distinct = true;
-            return Case { table, query, lines, filler: 0, joined: None, joined_lines: Vec::new() };
+            return Case { table, query, lines, filler: 0, joined: None, joined_lines: Vec::new(), failing_having: None };
         }
         let mut opts = QOpts::all();
         opts.limit = false;
@@ -365,10 +430,26 @@ impl Property for C08 {
             query.items = vec![(crate::sql::E::Star, None)];
             query.filter = None;
         }
-        Case { table: g.table, query, lines, filler, joined: g.joined, joined_lines }
+        // drawn last (earlier tapes keep their cases): one case in twelve is the failing-HAVING mode
+        let failing_having = if t.chance(1, 12) {
+            let n = 3 + t.draw(8);
+            Some(FailingHaving { select: t.draw(FH_SELECT.len()) as u8, threshold: t.range(0, 3), rows: (0..n).map(|_| (t.draw(3) as u8, t.range(0, 12), *t.pick(&[0i64, 0, 1, 2]))).collect() })
+        } else {
+            None
+        };
+        Case { table: g.table, query, lines, filler, joined: g.joined, joined_lines, failing_having }
     }
 
     fn check(&self, case: &Case, ctx: &Ctx, obs: &mut Obs) -> Result<(), Failure> {
+        if let Some(fh) = &case.failing_having {
+            return match check_failing_having(fh, obs) {
+                Err(f) if f.signature == "harness-problem" => {
+                    eprintln!("C08 failing-having mode: {}", f.message);
+                    std::process::exit(2);
+                }
+                r => r,
+            };
+        }
         let lines_all = case.all_lines();
         if case.filler > 0 {
             obs.label("long-gap");
